@@ -387,6 +387,15 @@ class _Fut:
     def cancelled(self):
         return False
 
+    def cancel(self):
+        return False          # already finished
+
+    def running(self):
+        return False
+
+    def add_done_callback(self, fn):
+        fn(self)
+
 
 class _DoneSet(list):
     """result of wait(): iterable, len(), truthiness - like the sets concurrent.futures.wait returns"""
@@ -422,6 +431,14 @@ class LitePool:
         try:
             return _Fut(fn(*a, **k))
         except Exception as e:          # delivered at .result(), as a real pool does
+            if self.kind == "process":          # ... after a pickle round trip: an exception class whose constructor
+                import pickle                   # cannot be re-called with `args` breaks the pool
+                try:
+                    e = pickle.loads(pickle.dumps(e))
+                except Exception:
+                    from concurrent.futures.process import BrokenProcessPool
+                    e = BrokenProcessPool("A process in the process pool was terminated abruptly while the future was "
+                                          "running or pending.")
             return _Fut(exc=e)
 
     def map(self, fn, *iterables, **k):
